@@ -3,6 +3,7 @@ package worker
 import (
 	"fmt"
 	"sort"
+	"strings"
 	"testing"
 	"time"
 
@@ -103,6 +104,9 @@ func c04Exec(t *testing.T, base *world.Scenario, algo world.AlgoSpec, start int,
 	agg.Events += res.Events
 	agg.VirtualSec += res.VirtualSec
 	agg.MultiCh += res.MultiCh
+	for k, v := range res.Faults {
+		agg.Faults[k] += v
+	}
 	agg.Hash = mixHash(agg.Hash, res.Hash)
 	agg.Interleave = mixHash(agg.Interleave, res.Interleave)
 	if res.Harness != "" {
@@ -314,6 +318,16 @@ func runC04(t *testing.T, sc *world.Scenario) *check.Result {
 		}
 		cases = append(cases, histCase{"trajectory", h, tt})
 	}
+	{
+		// one control cycle of the history is late by 6-60 s (a hanging driver read, a stopped process)
+		// while the loop rests at the history's curve value: the algorithm's memory of it must be as
+		// bounded as that of any other history. (A late cycle that coincides with a large error winds the
+		// integral up by error x delay; that is a schedule irregularity outside the property's quantifier
+		// over curve trajectories and is not judged - see DESIGN.md 13.6.)
+		tt := 280 * sc.Tick.D()
+		h := []world.TempStep{{T: 0, V: tempForCurve(r.Range(0, 255))}}
+		cases = append(cases, histCase{fmt.Sprintf("late-cycle:%d", kernel.Pick(r, 6000, 8000, 15000, 60000)), h, tt})
+	}
 	idle := time.Duration(sc.Params["idleHours"] * float64(time.Hour))
 	// cap the number of idle cycles to keep one execution bounded
 	if maxIdle := 3000 * sc.Tick.D(); idle > maxIdle {
@@ -350,10 +364,22 @@ func runC04(t *testing.T, sc *world.Scenario) *check.Result {
 			if ai != 2 && hc.name != "trajectory" && r.Bool(0.5) {
 				continue // the stateless algorithms get fewer long-idle executions
 			}
-			seq := c04Exec(t, sc, algo, r.Range(0, 255), hc.hist, hc.end, max(bound+200, nByAlgo[ai]), res)
+			esc, hname := sc, hc.name
+			if strings.HasPrefix(hc.name, "late-cycle:") {
+				// a PWM read of a control cycle between the 60th and the 200th hangs for that long
+				esc = sc.Clone()
+				esc.Faults = append(esc.Faults, world.FaultSpec{Op: "read", Target: "fan:" + sc.Fans[0].ID + ":pwm", Nth: r.Range(120, 200), Count: 1, Kind: "delay:" + hc.name[len("late-cycle:"):], OnlyFlags: "upd,3rd"})
+				hname = "late-cycle"
+			}
+			hend := hc.end
+			if hname == "late-cycle" {
+				hend += 70 * time.Second // the constant phase begins after the late cycle in any case
+			}
+			seq := c04Exec(t, esc, algo, r.Range(0, 255), hc.hist, hend, max(bound+200, nByAlgo[ai]), res)
 			if res.Harness != "" {
 				return res
 			}
+			hc.name = hname
 			res.Probe("history-executions:" + hc.name)
 			if seq.curve != observedC || len(seq.req) < bound {
 				res.Probe("history-unjudged")
